@@ -767,7 +767,12 @@ def checkC07Emit (req : List String) (obs : String) : Option String :=
       | some p => if p.threads == .num n then none else some s!"thread-count-not-carried want={n}"
       | none => some "program-does-not-read-back"
     | .token t, .ok t0 t1 _ ((text, _) :: _) =>
-      match wantedNumbers t, readProgram text with
+      -- `#nums=`: the primary stands in a chain of other numeric tests; the annotation lists every constant of
+      -- the input in order (the generator knows them), so the whole list is compared
+      let wanted : Option (List (Option Nat)) := match annot req "nums" with
+        | some v => some ((v.splitOn ",").map fun x => x.toNat?)
+        | none => wantedNumbers t
+      match wanted, readProgram text with
       | some want, some p =>
         let got := numLeaves p.body
         if got.length ≠ want.length then some s!"constants want={want} got={got}"
